@@ -340,6 +340,8 @@ def run(model, tier="quick"):
                   "metric registry: each metric is computed from the series in its role; interval and duration in days",
                   opaque=opaque)
     drawdown_rule(model, res)
+    from .base_refs import enum_values_unique
+    res.floor("metric_enums", enum_values_unique(res, model, scope=("demeter/result/",)), 1)   # registry keys must not alias
     n = argrole_rule(model, res)
     res.floor("registry_call_sites", n, 8)
     res.floor("formula_targets", sum(1 for o in res.obligations if o.rule == "R-FORMULA"), 9)
